@@ -11,7 +11,7 @@ TRUSTED = [
     "model/Partials.v: threads sharing one lazy store; every cache access (the critical section of get_or_create / try_get_or_create: check - compile - insert under one lock, no lock held while rendering) is one atomic step of the model",
     "PARTIAL: mutual exclusion of std::sync::Mutex, Send/Sync soundness, data races in unsafe code of dependencies, lock poisoning after a panic and the OS scheduler are runtime behaviour the model cannot exhibit; they are exercised by the thread schedules below, not proved",
 ]
-RULE = ("schedules of 2..16 real threads released together by a barrier, each performing a random sequence of render / parse+render / parse calls on one shared Parser (lazy partial store) and shared Templates, "
+RULE = ("contention schedules (4..16 threads x 4 long renders full of break/continue/cycle/counters/ifchanged/capture/partial calls); schedules of 2..16 real threads released together by a barrier, each performing a random sequence of render / parse+render / parse calls on one shared Parser (lazy partial store) and shared Templates, "
         "with stateful constructs and lazily compiled valid and broken partials first touched by several threads at once; varied thread counts, start skews and yield injection; a watchdog detects deadlock; "
         "every call is compared with the sequential result; non-trivial = a schedule with >= 2 threads touching the same lazily compiled partial")
 
@@ -26,6 +26,16 @@ def main(tier, seed):
         run.obligation(False, "harness build against /repo", out[-3000:])
         return run.finish()
     scenarios = scen.fixed_scenarios() + [scen.random_scenario(rnd) for _ in range(8 if tier == "quick" else 60)]
+    # a contention scenario: long renders full of break / continue / cycle / counters / ifchanged / capture / partial calls, so that several of them are
+    # certainly in flight at once and anything shared between renders (not only the partial store) is hit at every element boundary
+    var, I, Sx = tpl.var, tpl.I, tpl.Sx
+    A = [("for", "i", ("cnt", I(1), I(150)), None, None, False, [("if", True, ("bin", var("i"), ">", I(2)), [("continue",)], None), ("text", "x"), ("out", (var("i"), []))], None), ("text", "|"),
+         ("for", "i", ("cnt", I(1), I(150)), None, None, False, [("for", "j", ("cnt", I(1), I(3)), None, None, False, [("if", True, ("bin", var("j"), "==", I(2)), [("break",)], None), ("out", (var("j"), []))], None)], None)]
+    B = [("for", "i", ("cnt", I(1), I(200)), None, None, False, [("cycle", None, [Sx("a"), Sx("b"), Sx("c")]), ("inc", "n"), ("ifchanged", [("text", "k")]), ("assign", "g", (var("i"), [])),
+                                                                  ("capture", "cap", [("out", (var("i"), []))]), ("out", (var("cap"), []))], None)]
+    Cc = [("for", "i", ("cnt", I(1), I(60)), None, None, False, [("render", Sx("p"), None, [("k", var("i"))]), ("include", Sx("p"), [("k", var("i"))])], None)]
+    stress_si = len(scenarios)
+    scenarios.append({"partials": [("p", [("text", "("), ("out", (var("k"), [])), ("inc", "n"), ("text", ")")])], "templates": [A, B, Cc], "datas": [[["a", ["i", "1"]]]]})
     # sequential reference: every (template, data) once on a fresh parser
     seq_reqs = []
     for si, sc in enumerate(scenarios):
@@ -57,6 +67,11 @@ def main(tier, seed):
         reqs.append({"id": len(reqs), "kind": "threads", "si": si, "policy": rnd.choice(["lazy", "lazy", "eager", "ondemand"]), "partials": scen.partials_req(sc),
                      "templates": [tpl.body_text(t) for t in sc["templates"]], "datas": sc["datas"], "threads": threads,
                      "yields": rnd.random() < 0.5, "skew_us": rnd.choice([0, 0, 1, 20]), "watchdog_s": 30})
+    sc = scenarios[stress_si]
+    for _ in range(24 if tier == "quick" else 400):
+        threads = [[["render", rnd.randrange(3), 0] for _c in range(4)] for _t in range(rnd.choice([4, 8, 16]))]
+        reqs.append({"id": len(reqs), "kind": "threads", "si": stress_si, "policy": rnd.choice(["lazy", "eager", "ondemand"]), "partials": scen.partials_req(sc),
+                     "templates": [tpl.body_text(t) for t in sc["templates"]], "datas": sc["datas"], "threads": threads, "yields": rnd.random() < 0.5, "skew_us": 0, "watchdog_s": 60})
     resps, problems = lv.run_harness(binp, reqs, shards=4, tag="C20", timeout=1200)
     for pb in problems:
         run.violations.append({"what": "implementation process died / hung during a thread schedule", "observed": pb["tail"]})
